@@ -52,6 +52,8 @@ type effect struct {
 	Put      map[string]string   `json:"put,omitempty"`
 	PutOrder map[string][]string `json:"put_order,omitempty"` // ordered-list path -> entry keys in arrival order
 	Target   string              `json:"target,omitempty"`    // what kind of node the step addresses (for probes)
+	// Clear lists leaf-lists the payload mentions as empty arrays: they end up without elements
+	Clear []string `json:"clear,omitempty"`
 }
 
 // refModel is the path -> value reference model plus ordered-list order.
@@ -91,6 +93,9 @@ func (r *refModel) apply(e effect) {
 				r.order[lp] = keep
 			}
 		}
+	}
+	for _, q := range e.Clear {
+		delete(r.leaves, q)
 	}
 	for q, v := range e.Put {
 		r.leaves[q] = v
@@ -199,6 +204,23 @@ func c13Exec(c *Case, generate bool) (*Violation, *execStats) {
 }
 
 // payloadFor generates a subtree for a struct target and returns (json, leaves, order).
+// emptiedLeafLists turns some unset leaf-list fields of the payload's top struct into allocated
+// empty ones (rendered as "[]") and returns their data-tree paths.
+func emptiedLeafLists(vg *gen.G, payload reflect.Value, base string) []string {
+	var out []string
+	s := payload.Elem()
+	t := s.Type()
+	for i := 0; i < t.NumField(); i++ {
+		sf := t.Field(i)
+		if model.Classify(sf) != model.FLeafList || !s.Field(i).IsNil() || vg.R.Intn(3) != 0 {
+			continue
+		}
+		s.Field(i).Set(reflect.MakeSlice(sf.Type, 0, 0))
+		out = append(out, model.FieldPaths(sf, base)...)
+	}
+	return out
+}
+
 func payloadFor(vg *gen.G, lt *leafTarget, base string, merge bool) (reflect.Value, map[string]string, map[string][]string) {
 	// ygot documents that `ordered-by user` lists are unmarshalled as a whole: a merge
 	// (update) payload therefore carries no ordered-list entries; replace payloads may.
@@ -272,6 +294,10 @@ func c13Draw(r *simrt.Rng, vg *gen.G, s *treeState, faults bool) (Op, bool) {
 			}
 			lt = nil
 		}
+		if structTarget && r.Intn(14) == 0 {
+			// the root itself: an update (or replace) with an empty path and a payload for the whole tree
+			lt = &leafTarget{KeyLeaves: map[string]string{}, Pkg: s.p, StructT: reflect.TypeOf(s.root).Elem(), StructSch: s.sch}
+		}
 		if lt == nil {
 			return upd{}, effect{}, false
 		}
@@ -285,7 +311,12 @@ func c13Draw(r *simrt.Rng, vg *gen.G, s *treeState, faults bool) (Op, bool) {
 			e.PutOrder[o[0]] = append(e.PutOrder[o[0]], o[1])
 		}
 		if lt.StructT != nil {
-			payload, leaves, order := payloadFor(vg, lt, path, kind == "update")
+			base := path
+			if len(lt.Elems) == 0 {
+				base = ""
+			}
+			payload, leaves, order := payloadFor(vg, lt, base, kind == "update")
+			e.Clear = emptiedLeafLists(vg, payload, base)
 			mergeInto(e.Put, leaves)
 			for lp, ks := range order {
 				e.PutOrder[lp] = append(e.PutOrder[lp], ks...)
@@ -295,6 +326,9 @@ func c13Draw(r *simrt.Rng, vg *gen.G, s *treeState, faults bool) (Op, bool) {
 				return upd{}, effect{}, false
 			}
 			e.Target = "container"
+			if len(lt.Elems) == 0 {
+				e.Target = "root"
+			}
 			if lt.LastIsEntry {
 				e.Target = "list-entry"
 				if lt.InOrdered && len(lt.OrderedOn) > 0 && strings.HasPrefix(path, lt.OrderedOn[len(lt.OrderedOn)-1][0]+"[") && model.FormatPath(lt.Elems) == lt.OrderedOn[len(lt.OrderedOn)-1][0]+lt.OrderedOn[len(lt.OrderedOn)-1][1] {
@@ -353,7 +387,11 @@ func c13Draw(r *simrt.Rng, vg *gen.G, s *treeState, faults bool) (Op, bool) {
 		i := idxs[r.Intn(len(idxs))]
 		lt := structTargets[i]
 		path := upds[i].path
-		payload, leaves, order := payloadFor(vg, lt, path, true)
+		base := path
+		if len(lt.Elems) == 0 {
+			base = ""
+		}
+		payload, leaves, order := payloadFor(vg, lt, base, true)
 		if b, err := json.Marshal(model.TreeJSON(payload)); err == nil {
 			nu := len(effs) - len(upds)
 			e := effect{Kind: "update", Put: map[string]string{}, PutOrder: map[string][]string{}, Target: effs[nu+i].Target}
